@@ -121,16 +121,20 @@ def generate(run_seed: int, tier: str, *, faults: bool) -> dict:
             kinds += [("cat_to_num", 3), ("level_gain", 4)]
         if num_vars:
             kinds += [("num_to_text", 3)]
+        if "F" in vars_used:
+            kinds += [("level_alias", 2)]
         if not kinds:
             return None
         k = core.weighted(rng, kinds)
+        if k == "level_alias":
+            return {"kind": k, "var": "F", "as": rng.choice(["int", "float"])}
         if k == "cat_to_num":
             f_ = {"kind": k, "var": rng.choice(cat_vars)}
             if rng.random() < 0.15:
                 f_["allnull"] = True
             return f_
         if k == "num_to_text":
-            f_ = {"kind": k, "var": rng.choice(num_vars), "dtype": rng.choice(["object", "str", "category"])}
+            f_ = {"kind": k, "var": rng.choice(num_vars), "dtype": rng.choice(["object", "str", "category", "arrow_str"])}
             if rng.random() < 0.15:
                 f_["allnull"] = True
             return f_
@@ -642,7 +646,7 @@ def execute(scenario: dict, env: Any, *, prop: str) -> dict:
                 if len(got) != len(h["names"]):
                     raise Violation("c09:level-change-reshaped-columns", {"fault": fault, "parts": len(got)})
                 survivors = got[0][1]["arr"].shape[0] if got else 0
-                if cv["nonhashed_cat"] and not mism and survivors > 0:
+                if cv["nonhashed_cat"] and not mism and survivors > 0 and not fault.get("allnull"):  # nulls are not unseen levels
                     raise Violation("c09:level-change-no-warning", {"fault": fault, "var_roles": cv, "warnings": [str(w.message)[:80] for w in wlist]})
                 if fk == "level_gain":
                     try:
